@@ -31,7 +31,8 @@ Definition elems (t : tree) : fib := match t with Node es => es | Leaf _ => [] e
 (* metric calls that this property observes.  Rank ids are the loop depths 0, 1, 2 ...;
    ECount k: incCount("Compute", payload_mul / payload_add / payload_update) for k = 0 / 1 / 2;
    EUse r: addUse(r, coord, pos) with the default type "iter" *)
-Inductive mev := ERegister (r : Z) | EUse (r : Z) | ECount (k : Z).
+Inductive mev := ERegister (r : Z) | EUse (r : Z) | ECount (k : Z)
+  | EFail.   (* `assert insert_pos is not None` in the populate iterator fails (iterators.py:1242-1244) *)
 
 (* two-finger intersection, iterators.py:758-798, on the elements iterRange lets through *)
 Fixpoint and_merge (a : fib) : fib -> list (Z * (tree * tree)) :=
@@ -115,10 +116,21 @@ Definition leaf_stmt (coll : bool) (z a b : tree) : tree * list mev :=
   | _, _ => (z, [])          (* operands of the wrong depth: excluded by c15_wf *)
   end.
 
+(* Fiber.maxCoord(): the last stored coordinate, None for an empty fiber *)
+Definition max_coord (es : fib) : option Z := last (map (fun ct => Some (fst ct)) es) None.
+
+(* The write trace of a populate addresses an element that is inserted before the output
+   fiber's last coordinate by a position in a staging area that starts at the fiber's declared
+   shape; without one the iterator raises AssertionError after the body, if the new element is
+   kept (iterators.py:1232-1249, after commit bd506ae).  fail = collecting, (rank,
+   "populate_write_0") traced, output without declared shape, and `inserting` — decided once per
+   traversal from the first coordinate offered (iterators.py:1154-1158) *)
+Definition fail_evs (fail kept : bool) : list mev := if fail && kept then [EFail] else [].
+
 (* one iteration of the loop at rank r: addUse(r) before the body (iterators.py:176-179; in
-   iterRangeShape after fix S44); with
-   populate the output payload is looked up / created before and maybe removed after the body *)
-Definition step (coll : bool) (r : Z) (l : level) (zbelow : bool)
+   iterRangeShape after fix S44); with populate the output payload is looked up / created before
+   and maybe removed after the body *)
+Definition step (coll : bool) (r : Z) (l : level) (zbelow : bool) (fail : bool)
            (body : tree -> tree -> tree -> tree * list mev)
            (st : tree * list mev) (el : Z * (tree * tree)) : tree * list mev :=
   let '(c, (ta, tb)) := el in
@@ -132,21 +144,32 @@ Definition step (coll : bool) (r : Z) (l : level) (zbelow : bool)
          snd st ++ use ++ e)
     | None =>
         let '(zc', e) := body (z_default zbelow) ta tb in
-        (Node (if z_removed true zc' then zes else z_insert c zc' zes), snd st ++ use ++ e)
+        (Node (if z_removed true zc' then zes else z_insert c zc' zes),
+         snd st ++ use ++ e ++ fail_evs fail (negb (z_removed true zc')))
     end
   else
     let '(z', e) := body (fst st) ta tb in (z', snd st ++ use ++ e).
 
+(* `inserting`: the first coordinate the source offers is below the maximum of a non-empty
+   (compressed) output fiber *)
+Definition inserting (els : list (Z * (tree * tree))) (z : tree) : bool :=
+  match els, max_coord (elems z) with
+  | (c0, _) :: _, Some mx => Z.ltb c0 mx
+  | _, _ => false
+  end.
+
 (* the loop nest.  registerRank(r) when the for statement starts (iterators.py:162-163,
-   211-212); da, db: the leaf defaults of the operand tensors (the output's is 0) *)
-Fixpoint run (coll : bool) (r : Z) (da db : Z) (lv : list level) (z a b : tree) {struct lv}
-  : tree * list mev :=
+   211-212); da, db: the leaf defaults of the operand tensors (the output's is 0);
+   wt r: (r, "populate_write_0") is traced and the output has no declared shape *)
+Fixpoint run (coll : bool) (r : Z) (wt : Z -> bool) (da db : Z) (lv : list level) (z a b : tree)
+         {struct lv} : tree * list mev :=
   match lv with
   | [] => leaf_stmt coll z a b
   | l :: lv' =>
-      fold_left (step coll r l (existsb lz lv') (run coll (r + 1) da db lv'))
-                (iter_elems l da db (existsb la lv') (existsb lb lv') a b)
-                (z, evs_if coll [ERegister r])
+      let els := iter_elems l da db (existsb la lv') (existsb lb lv') a b in
+      fold_left (step coll r l (existsb lz lv') (coll && wt r && inserting els z)
+                      (run coll (r + 1) wt da db lv'))
+                els (z, evs_if coll [ERegister r])
   end.
 
 Definition z_init (lv : list level) : tree := z_default (existsb lz lv).
@@ -227,6 +250,7 @@ Definition m_apply (m : mstate) (e : mev) : mstate :=
   | ERegister r => m_register r m
   | EUse r => m_use r m
   | ECount k => m_count k m
+  | EFail => m          (* the kernel is abandoned; nothing of the session is observed *)
   end.
 
 (* endCollect, metrics.py:220-256 with _writeTrace 639-665: the lines of every trace are
@@ -254,6 +278,11 @@ Record session := {
   s_end : bool                      (* false: aborted, endCollect never called *)
 }.
 
+(* the populate iterator's assertion can fail at rank r: its write trace is registered (the
+   label of the output side of a populate is 0 in these nests) and the output has no shape *)
+Definition s_wt (s : session) (r : Z) : bool :=
+  negb (s_zshape s) && existsb (key_eqb (r, 4)) (s_traces s).
+
 (* state when the kernel starts *)
 Definition session_start (m : mstate) (s : session) : mstate :=
   fold_left (fun m k => m_trace k m) (s_traces s) (begin_collect m).
@@ -261,7 +290,7 @@ Definition session_start (m : mstate) (s : session) : mstate :=
 (* (output tensor, state after the kernel, state after endCollect) *)
 Definition run_session (m : mstate) (s : session) : tree * mstate * mstate :=
   let m0 := session_start m s in
-  let '(z, evs) := run (m_coll m0) 0 (s_da s) (s_db s) (s_lv s) (z_init (s_lv s)) (s_a s) (s_b s) in
+  let '(z, evs) := run (m_coll m0) 0 (s_wt s) (s_da s) (s_db s) (s_lv s) (z_init (s_lv s)) (s_a s) (s_b s) in
   let m1 := fold_left m_apply evs m0 in
   (z, m1, if s_end s then end_collect m1 else m1).
 
